@@ -102,7 +102,7 @@ def coq_make(targets=None, timeout=1500):
     return rc == 0, (o + e)[-6000:]
 
 
-REGENERATED = ("Properties_serial.v", "Properties_poolskel.v", "Properties_probe.v")   # depend on gen/*.v regenerated from /repo on every run: handled by serial_side
+REGENERATED = ("Properties_serial.v", "Properties_poolskel.v", "Properties_probe.v", "Properties_statics.v")   # depend on gen/*.v regenerated from /repo on every run: handled by serial_side
 
 
 def serial_side(run, pid):
@@ -244,6 +244,90 @@ def probe_side(run, pid):
         shutil.rmtree(work, ignore_errors=True)
         fcntl.flock(lockf, fcntl.LOCK_UN)
         lockf.close()
+
+
+def regenerated_side(run, pid, tag, genfile, propfile, dep_vo, produce, what, trusted):
+    """generic: regenerate gen/<genfile> with produce(path) -> (info, problems), compile it and <propfile> in a scratch directory
+    (under a lock), attribute failures to theorem names.  Returns (ok, failed_names, info)."""
+    import fcntl
+    lockf = open("/var/tmp/verif_%s.lock" % tag, "w")
+    fcntl.flock(lockf, fcntl.LOCK_EX)
+    work = tempfile.mkdtemp(prefix=tag + ".", dir="/var/tmp")
+    failed, log, info = [], "", None
+    try:
+        os.makedirs(os.path.join(work, "gen"), exist_ok=True)
+        info, problems = produce(os.path.join(work, "gen", genfile))
+        coq_make(["theories/%s" % dep_vo])
+        shutil.copy(os.path.join(COQ, "theories", dep_vo), work)
+        rc, o, e = sh("timeout 200 coqc -Q . LibCSD gen/%s" % genfile, cwd=work, timeout=230)
+        if rc != 0 or problems:
+            failed.append("%s(translator)" % genfile)
+            log = (o + e)[-1500:] + " problems=%s" % problems
+        src = open(os.path.join(COQ, "theories", propfile)).read().split("\n")
+        names = re.findall(r"(?m)^Theorem\s+(\w+)", "\n".join(src))
+        for _ in range(8):
+            if failed and failed[0].endswith("(translator)"):
+                break
+            open(os.path.join(work, propfile), "w").write("\n".join(src))
+            rc, o, e = sh("timeout 200 coqc -Q . LibCSD %s" % propfile, cwd=work, timeout=230)
+            if rc == 0:
+                break
+            m = re.search(r"line (\d+), characters", o + e)
+            if not m:
+                failed.append("%s(unlocated)" % propfile)
+                log += (o + e)[-1000:]
+                break
+            line = int(m.group(1)) - 1
+            starts = [i for i, l in enumerate(src) if l.startswith("Theorem ")]
+            st = max([i for i in starts if i <= line] or [0])
+            if not src[st].startswith("Theorem"):
+                failed.append("%s(header)" % propfile)
+                log += (o + e)[-600:]
+                break
+            nm = re.match(r"Theorem\s+(\w+)", src[st]).group(1)
+            failed.append(nm)
+            log += "FAILED %s: %s\n" % (nm, " ".join((o + e).split())[-300:])
+            en = min([i for i in starts if i > st] + [len(src)])
+            src[st:en] = ["(* removed %s *)" % nm]
+        mine = [n for n in names if n.startswith(pid + "_")]
+        structural = [f for f in failed if not re.match(r"C\d\d_", f)]
+        for n in mine:
+            run.oblige("regenerated obligation %s (%s)" % (n, what), n not in failed and not structural,
+                       "" if n not in failed else "no longer checks against what was read from the current tree")
+        run.extra[tag + "_check"] = {"failed": failed, "log_tail": log[-1200:]}
+        run.trusted = list(run.trusted) + [trusted]
+        bad = [n for n in failed if re.match(r"C\d\d_", n)] + structural
+        return (not bad), bad, info
+    finally:
+        shutil.rmtree(work, ignore_errors=True)
+        fcntl.flock(lockf, fcntl.LOCK_UN)
+        lockf.close()
+
+
+def statics_side(run, pid):
+    """inventory of writable static-storage objects of the compiled working tree vs the reviewed list (StaticsRef.v)"""
+    import translate_statics
+
+    def produce(path):
+        d = tempfile.mkdtemp(prefix="staticslib.", dir="/var/tmp")
+        try:
+            try:
+                lib, key, hit = buildlib.build(d, "plain")
+            except SystemExit:
+                return None, ["library build failed"]
+            items, tls = translate_statics.inventory(lib)
+            translate_statics.emit(items, tls, path)
+            return {"statics": items, "tls": tls}, ([] if items else ["empty inventory"])
+        finally:
+            shutil.rmtree(d, ignore_errors=True)
+    ok, bad, info = regenerated_side(run, pid, "statics", "Statics_gen.v", "Properties_statics.v", "StaticsRef.vo", produce,
+                                     "writable static-storage objects of the compiled tree = the reviewed inventory",
+                                     "tools/translate_statics.py (nm -C --defined-only / readelf on the plain build: symbols of types B b D d) and the "
+                                     "review recorded in StaticsRef.v (which statics are reachable from the block builder and why they are not written)")
+    if info:
+        run.extra["statics_check"]["inventory"] = ["%s:%s" % x for x in info["statics"]]
+        run.extra["statics_check"]["thread_local"] = info["tls"]
+    return ok, bad, info
 
 
 def property_files(pid):
